@@ -687,6 +687,8 @@ def run(verbose=False, quick=False, processes=None) -> dict:
     stage('bip143', test_bip143)
     stage('network_json', test_networks_json)
     stage('selfconsistency_checks', test_selfconsistency)
+    from . import bip38
+    stage('bip38_vectors', bip38.selftest)
     stage('blocks', test_blocks, quick=quick, verbose=verbose, processes=processes)
     pub, z = ec.pub_from_priv(12345), int.from_bytes(sha256(b'timing'), 'big')
     r, s = ec.ecdsa_sign(12345, z)
